@@ -49,7 +49,9 @@ CONSTANTS MaxWrites,    \* writes per history
           Defects,      \* subset of AllDefects modelled as present
           Emit          \* TRUE: print one TRACE line per terminal state
 
-AllDefects == {"deleteBeforeFlush", "renorm", "keyCollision", "intM"}
+\* aliasPayload (not in the code): the queued envelope entry aliases the caller's request buffer instead of
+\* copying it, so a buffer reused before Persist corrupts the entry (CRC computed at append time)
+AllDefects == {"deleteBeforeFlush", "renorm", "keyCollision", "intM", "aliasPayload"}
 
 Kinds    == {"raw", "row", "batch", "array", "lp"}
 Specials == {"database", "measurement", "m", "_database", "_measurement"}
@@ -70,6 +72,10 @@ EntryClasses ==
     \* a columnar client batch with more rows than wal.recovery_batch_size whose timestamps are mixed: row 0
     \* is an ordinary microsecond value, the row at index = batch size is before 1970 ("win" / "mixedwin")
     \cup {[Base("raw") EXCEPT !.sz = "win", !.ts = "mixedwin"]}
+    \* the database literally named "default" (the routing fallbacks of the replay callback default to it),
+    \* crossed with the special column names
+    \cup {[Base(k) EXCEPT !.db = "default", !.sp = s] : k \in {"lp", "row"}, s \in Specials \cup {"none"}}
+    \cup {[Base(k) EXCEPT !.db = "default", !.sp = "database"] : k \in {"raw", "batch", "array"}}
 
 Sched3Classes == {Base("raw"), Base("lp"), [Base("lp") EXCEPT !.db = "d2"]}
 \* + adjacency classes: a second columnar write of the same shape to another database, and as controls the
@@ -89,12 +95,13 @@ VARIABLES phase,    \* "live" | "down" | "rec" | "done"
           cur,      \* [f, e, ok]: recovery cursor (file index, next callable entry, allEntriesSucceeded)
           crashes,
           faults,   \* transient replay-callback failures injected so far
+          scribbled, \* ids whose request buffer was reused while the entry was still queued
           reached,  \* ids whose WAL entry reached a file
           flushed,  \* ids whose live rows reached Parquet before any crash took them
           sched     \* history: labels of the steps taken (what the driver replays)
 
-vars == <<phase, writes, chan, files, buf, pq, cur, crashes, faults, reached, flushed, sched>>
-view == <<phase, writes, chan, files, buf, pq, cur, crashes, faults, reached, flushed>>
+vars == <<phase, writes, chan, files, buf, pq, cur, crashes, faults, scribbled, reached, flushed, sched>>
+view == <<phase, writes, chan, files, buf, pq, cur, crashes, faults, scribbled, reached, flushed>>
 
 -----------------------------------------------------------------------------
 WalFmt(c) == IF c.kind = "raw" THEN "env" ELSE "rows"
@@ -119,7 +126,8 @@ ReplayRow(i) ==
           drop |-> IF c.sp \in {"database", "measurement", "m"} /\ "keyCollision" \in Defects THEN c.sp ELSE "none"]
 
 \* Reader.readEntry yields the entry (an "env" entry with an integer m is "unrecognized")
-Readable(i) == ~(WalFmt(writes[i]) = "env" /\ writes[i].mk = "int" /\ "intM" \in Defects)
+Readable(i) == /\ ~(WalFmt(writes[i]) = "env" /\ writes[i].mk = "int" /\ "intM" \in Defects)
+               /\ ~(i \in scribbled /\ "aliasPayload" \in Defects)
 
 CallEnts(f) == SelectSeq(files[f].ents, Readable)
 
@@ -131,16 +139,20 @@ FirstFrom(fs, lo, hi) == CHOOSE g \in lo..hi : /\ (g = hi \/ fs[g].alive)
 Init == /\ phase = "live" /\ writes = <<>> /\ chan = <<>>
         /\ files = <<[ents |-> <<>>, alive |-> TRUE]>>
         /\ buf = {} /\ pq = {} /\ cur = [f |-> 1, e |-> 1, ok |-> TRUE]
-        /\ crashes = 0 /\ faults = 0 /\ reached = {} /\ flushed = {} /\ sched = <<>>
+        /\ crashes = 0 /\ faults = 0 /\ scribbled = {} /\ reached = {} /\ flushed = {} /\ sched = <<>>
 
 -----------------------------------------------------------------------------
-Write(c) ==
+\* reuse: the caller (fasthttp) recycles the request-body buffer right after the handler returned, while the
+\* entry is still in the asynchronous queue (only explored for a raw columnar write on an empty queue)
+Write(c, reuse) ==
     /\ phase = "live" /\ Len(writes) < MaxWrites
+    /\ reuse => (c.kind = "raw" /\ chan = <<>> /\ ClassSel = "entry")   \* explored in the entry-level space only
+    /\ scribbled' = IF reuse THEN scribbled \cup {Len(writes) + 1} ELSE scribbled
     /\ LET i == Len(writes) + 1 IN
          /\ writes' = Append(writes, c)
          /\ chan' = Append(chan, i)
          /\ buf' = buf \cup {LiveRowOf(c, i)}
-    /\ sched' = Append(sched, "w")
+    /\ sched' = Append(sched, IF reuse THEN "wu" ELSE "w")
     /\ UNCHANGED <<phase, files, pq, cur, crashes, faults, reached, flushed>>
 
 Persist ==
@@ -149,14 +161,14 @@ Persist ==
     /\ reached' = reached \cup {Head(chan)}
     /\ chan' = Tail(chan)
     /\ sched' = Append(sched, "p")
-    /\ UNCHANGED <<phase, writes, buf, pq, cur, crashes, faults, flushed>>
+    /\ UNCHANGED <<phase, writes, buf, pq, cur, crashes, faults, scribbled, flushed>>
 
 Flush ==
     /\ phase = "live" /\ buf # {}
     /\ pq' = pq \cup buf /\ buf' = {}
     /\ flushed' = flushed \cup {r.id : r \in {x \in buf : x = LiveRow(x.id)}}
     /\ sched' = Append(sched, "f")
-    /\ UNCHANGED <<phase, writes, chan, files, cur, crashes, faults, reached>>
+    /\ UNCHANGED <<phase, writes, chan, files, cur, crashes, faults, scribbled, reached>>
 
 \* crash points the driver can reach exactly: anywhere in the live phase; in recovery right
 \* after a replayed entry ("xa") or right before the first entry of a file ("xb": start of
@@ -177,7 +189,7 @@ Crash ==
     /\ phase' = "down" /\ chan' = <<>> /\ buf' = {}
     /\ crashes' = crashes + 1
     /\ sched' = Append(sched, CrashLabel)
-    /\ UNCHANGED <<writes, files, pq, cur, faults, reached, flushed>>
+    /\ UNCHANGED <<writes, files, pq, cur, faults, scribbled, reached, flushed>>
 
 Restart ==
     /\ phase = "down"
@@ -185,7 +197,7 @@ Restart ==
     /\ phase' = "rec"
     /\ cur' = [f |-> FirstFrom(Append(files, [ents |-> <<>>, alive |-> TRUE]), 1, Len(files) + 1), e |-> 1, ok |-> TRUE]
     /\ sched' = Append(sched, "s")
-    /\ UNCHANGED <<writes, chan, buf, pq, crashes, faults, reached, flushed>>
+    /\ UNCHANGED <<writes, chan, buf, pq, crashes, faults, scribbled, reached, flushed>>
 
 RecoverReplay ==
     /\ phase = "rec" /\ cur.f < Active
@@ -193,7 +205,7 @@ RecoverReplay ==
     /\ buf' = buf \cup {ReplayRow(CallEnts(cur.f)[cur.e])}
     /\ cur' = [cur EXCEPT !.e = @ + 1]
     /\ sched' = Append(sched, "r")
-    /\ UNCHANGED <<phase, writes, chan, files, pq, crashes, faults, reached, flushed>>
+    /\ UNCHANGED <<phase, writes, chan, files, pq, crashes, faults, scribbled, reached, flushed>>
 
 \* the callback of one entry fails transiently (storage/backpressure error): nothing is buffered and
 \* allEntriesSucceeded becomes FALSE; a columnar entry lets the loop continue, a row entry breaks out
@@ -205,7 +217,7 @@ RecoverReplayFail ==
                           !.e = IF WalFmt(writes[CallEnts(cur.f)[cur.e]]) = "env" THEN @ + 1
                                 ELSE Len(CallEnts(cur.f)) + 1]
     /\ sched' = Append(sched, "rf")
-    /\ UNCHANGED <<phase, writes, chan, files, buf, pq, crashes, reached, flushed>>
+    /\ UNCHANGED <<phase, writes, chan, files, buf, pq, crashes, scribbled, reached, flushed>>
 
 \* !allEntriesSucceeded: "WAL file partially recovered - keeping for retry"
 RecoverKeep ==
@@ -213,7 +225,7 @@ RecoverKeep ==
     /\ cur.e > Len(CallEnts(cur.f))
     /\ cur' = [f |-> FirstFrom(files, cur.f + 1, Active), e |-> 1, ok |-> TRUE]
     /\ sched' = Append(sched, "k")
-    /\ UNCHANGED <<phase, writes, chan, files, buf, pq, crashes, faults, reached, flushed>>
+    /\ UNCHANGED <<phase, writes, chan, files, buf, pq, crashes, faults, scribbled, reached, flushed>>
 
 \* allEntriesSucceeded: the file is removed (also when it had no readable entry at all)
 RecoverDelete ==
@@ -225,13 +237,13 @@ RecoverDelete ==
     /\ files' = [files EXCEPT ![cur.f].alive = FALSE]
     /\ cur' = [f |-> FirstFrom([files EXCEPT ![cur.f].alive = FALSE], cur.f + 1, Active), e |-> 1, ok |-> TRUE]
     /\ sched' = Append(sched, "d")
-    /\ UNCHANGED <<phase, writes, chan, crashes, faults, reached, flushed>>
+    /\ UNCHANGED <<phase, writes, chan, crashes, faults, scribbled, reached, flushed>>
 
 RecoverDone ==
     /\ phase = "rec" /\ cur.f = Active
     /\ phase' = "live"
     /\ sched' = Append(sched, "R")
-    /\ UNCHANGED <<writes, chan, files, buf, pq, cur, crashes, faults, reached, flushed>>
+    /\ UNCHANGED <<writes, chan, files, buf, pq, cur, crashes, faults, scribbled, reached, flushed>>
 
 \* a scenario ends only when no kept file still waits for its retry at the next startup
 Finish ==
@@ -240,11 +252,11 @@ Finish ==
     /\ pq' = pq \cup buf /\ buf' = {}
     /\ phase' = "done"
     /\ sched' = Append(sched, "F")
-    /\ UNCHANGED <<writes, chan, files, cur, crashes, faults, reached, flushed>>
+    /\ UNCHANGED <<writes, chan, files, cur, crashes, faults, scribbled, reached, flushed>>
 
 Done == phase = "done" /\ UNCHANGED vars
 
-Next == \/ \E c \in ClassSet : Write(c)
+Next == \/ \E c \in ClassSet, u \in BOOLEAN : Write(c, u)
         \/ Persist \/ Flush \/ Crash \/ Restart
         \/ RecoverReplay \/ RecoverReplayFail \/ RecoverKeep \/ RecoverDelete \/ RecoverDone \/ Finish \/ Done
 
